@@ -379,6 +379,11 @@ func coordinate(id, tier string) int {
 
 	known := loadKnown()
 	os.MkdirAll(filepath.Join(root(), "replays"), 0o755)
+	if old, _ := filepath.Glob(filepath.Join(root(), "replays", id+"-*.json")); true {
+		for _, f := range old {
+			os.Remove(f) // artefacts of earlier runs of this property are stale
+		}
+	}
 	exit := 0
 	nviol := 0
 	var knownLines, violLines []string
